@@ -3,6 +3,7 @@ import CoercionModel.Proofs.WalkChain
 import CoercionModel.Generated.F5
 import CoercionModel.Model.SkeletonsMore
 import CoercionModel.Generated.F12
+import CoercionModel.Proofs.TranslatedWalk
 /-
   C19 — Walk visits every object once, in execution order, with its ancestors; stops at once.
 
@@ -142,5 +143,18 @@ set_option maxRecDepth 100000 in
 /-- the code this property's model mirrors still has the shape the model was written against (control-flow
     skeletons regenerated from /repo on every run, Model/SkeletonsMore) -/
 theorem facts_model_skeleton : Generated.F12.walk = SkeletonsMore.walk := by decide +kernel
+
+/-! ### translated code: walk.go itself, regenerated on every run (Generated/T2.lean) -/
+
+/-- the walker translated from walk.go is the model the theorems above are about -/
+theorem translated_walk (cons : Cons) (p : Plan) : Generated.T2.walkPlan cons p = walkPlan cons p :=
+  TranslatedWalk.walkPlan_eq cons p
+
+/-- … so the main theorem holds of the translated code directly: every consumer receives exactly the prefix of
+    the specified order up to its stop, and the walker never yields after a stop -/
+theorem translated_any_consumer (cons : Cons) (p : Plan) :
+    (Generated.T2.walkPlan cons p {}).2.out = takeCons cons [] (specPlan p) ∧ (Generated.T2.walkPlan cons p {}).2.bad = false := by
+  rw [translated_walk]
+  exact any_consumer cons p
 
 end Coercion.C19
